@@ -625,6 +625,7 @@ func runLoopCase(c LoopCase, o *vcore.Obs) (*loopStats, error) {
 	occ := 0
 	waitIters, fallbacks := 0, 0
 	quiet, iterDirty := 0, false
+	ownWaited := false
 	iterations := 0
 	storesAtIter := 0
 	countStores := func() int {
@@ -745,6 +746,12 @@ func runLoopCase(c LoopCase, o *vcore.Obs) (*loopStats, error) {
 				mir.Capture(nextNow(), 0)
 			}
 		case "sync.iter":
+			if ownPhase && !ownWaited {
+				// the download of the own snapshot is done by a free-running goroutine: give it processor time before
+				// iterations of the (stepped) loop are counted against the idle limit
+				ownWaited = true
+				WaitFor(20*time.Second, func() bool { d, _ := nd.Downloads(); return d >= dlBase })
+			}
 			if iterations > 0 {
 				if !iterDirty && !ownPhase && (c.Force || countStores() == storesAtIter) {
 					quiet++
